@@ -45,7 +45,10 @@ def _one(args):
             slack = M.SLACKS[(hash(json.dumps(case["rows"])) + rq + len(kind)) % len(M.SLACKS)]        # the configured slack rotates, 0.0 included
             detail["slack"] = slack
             try:
-                m = M.load(M.make_moment(kind, ratio, slack), d, hc)
+                m = M.make_moment(kind, ratio, slack)
+                if (rq + n) % 2 == 0:
+                    M.preload(m, hc)              # the same moment object was used on another data set before
+                m = M.load(m, d, hc)
             except Exception as e:
                 out.append(({"api": "load_data", "kind": "exception", **sig0}, f"{kind}.load_data raised {e!r}", detail))
                 continue
@@ -143,6 +146,8 @@ def _one(args):
             fp, fn_ = eo["costs"]
             try:
                 er = red.ErrorRate(costs={"fp": fp, "fn": fn_})
+                if (fp + n) % 2 == 0:
+                    M.preload(er, False)
                 er.load_data(d["X"], np.array(d["y"]), sensitive_features=d["g"])
                 e0 = R(eo["e0"]); eu = [R(x) for x in eo["eunit"]]
                 for hpos in [[0] * n, hard] + softs[:1]:
